@@ -1284,7 +1284,7 @@ func firstSelectWith(t, bv string) string {
 			return ""
 		}
 		sub := t[i : j+1]
-		if strings.Contains(sub, bv) {
+		if strings.Contains(sub, bv) && !strings.Contains(sub, "(ite ") {
 			return sub
 		}
 	}
